@@ -27,6 +27,7 @@ def make_key(keysdir, name, key):
     os.makedirs(keysdir, exist_ok=True)
     with open(os.path.join(keysdir, name + ".bin"), "wb") as fh:
         fh.write(key)
+    drive.plant_in_home(name + ".bin", hashlib.sha256(b"home decoy" + key).digest())
 
 
 def parse_info(info):
